@@ -7,7 +7,19 @@ def _c10_extra(repo, reg, tier):
     return scan_payload_writes(repo, reg, tier)
 
 
+def _c09_extra(repo, reg, tier):
+    from contracts.persist import scan
+
+    return scan(repo, reg, tier)
+
+
 PROPS: dict[str, dict] = {
+    "C09": {
+        "modules": ["persist"],
+        "extra": [_c09_extra],
+        "assumptions": [],
+        "explanation": "hash/eq obligations on every dataclass reachable from Relation; frame obligation for every mutating statement of the library; no ambient-state imports",
+    },
     "C10": {
         "modules": ["payload"],
         "extra": [_c10_extra],
@@ -131,5 +143,13 @@ PROPS["C20"].update(
                "Chain/Join _begin_apply/_finish_apply (EngineError/ColumnError), Slice/Calculation/Join/ColumnFunction/PredicateFunction/LeafRelation constructors and BaseRelation.__getitem__ (TypeError/ValueError) likewise.",
     level_note=_COMMON_NOTE + "'A rejected call leaves every existing relation unchanged' is the frame property C09, not re-proved here.",
 )
-CLAIMED = {"C03", "C04", "C05", "C06", "C13", "C14", "C15", "C16", "C19", "C20"}
+PROPS["C09"].update(
+    level_text="Generated from the current AST on every run and decided exactly (no sampling): (1) every dataclass that can occur in a relation tree is frozen-with-eq or identity-hashed and every compared field has a hashable declared type "
+               "(equal trees then have equal hashes by dataclass semantics); (2) every statement that can write to an object (attribute/subscript/augmented assignment, object.__setattr__, mutating container methods) writes to an object allocated in the same call "
+               "(flow-aware freshness analysis) or to a declared cell (marker payload in attach_payload, engine name counter); (3) no ambient-state imports.",
+    level_note="Trusted: the AST analyses in contracts/persist.py. Assumed: user tags/literal values hashable; SQLAlchemy builder calls are generative; reflection is not used to mutate objects; 'identical SQL text twice' only via purity. "
+               "Freshness of Diagnostics.run's result is a proved contract obligation of C16.",
+    technique="frame and type obligations generated per mutating statement / per dataclass field from the current AST, decided by an intraprocedural freshness (ownership) analysis; no SMT needed",
+)
+CLAIMED = {"C03", "C04", "C05", "C06", "C09", "C13", "C14", "C15", "C16", "C19", "C20"}
 NOT_CLAIMED: dict[str, str] = {}
